@@ -162,7 +162,13 @@ static void c20_bloom(void) {
                 else {
                     if (carquet_bloom_filter_size(g) != nb * 32 || memcmp(carquet_bloom_filter_data(g), carquet_bloom_filter_data(f), nb * 32)) mc_fail("bloom.reload-differs", "subset=0x%03x", sub);
                     for (int k = 0; k < 12; k++) if (((sub >> k) & 1) && !cq_check(g, t, k)) mc_fail("bloom.false-negative-after-reload", "value#%d", k);
-                    carquet_bloom_filter_destroy(g);
+                    /* the re-loaded filter is independent of the bytes it was read from: the caller's buffer is reused for something else and then released, and inserting into the
+                     * re-loaded filter leaves the caller's (const) bytes alone */
+                    uint8_t* keep = mc_exact(ser, w); for (int k = 0; k < 12; k++) if (!((sub >> k) & 1)) { cq_insert(g, t, k); break; }
+                    if (memcmp(ser, keep, w)) mc_fail("bloom.reload-aliases-the-callers-buffer.insert-writes-through", "subset=0x%03x: inserting into the re-loaded filter changed the serialized bytes it was read from", sub);
+                    memset(ser, 0, w); free(ser); ser = NULL;
+                    for (int k = 0; k < 12; k++) if (((sub >> k) & 1) && !cq_check(g, t, k)) { mc_fail("bloom.reload-aliases-the-callers-buffer.false-negative", "subset=0x%03x value#%d: reported absent after the buffer the filter was read from was overwritten and freed", sub, k); break; }
+                    free(keep); carquet_bloom_filter_destroy(g);
                 }
                 free(ser);
                 /* merge(A,B) contains the union */
